@@ -499,6 +499,16 @@ def x7_shims(text, log):
         return "vx_pad_nulls(%s, &%s)" % (m.group(1), m.group(2)) + _nl(m.group(0))
     text = re.sub(r"\b([a-z_][a-z0-9_]*)\s*\.iter\(\)\s*\.cloned\(\)\s*\.chain\(\s*([a-z_][a-z0-9_]*)\s*\.columns\(\)\s*\.iter\(\)\s*\.map\(\|_\| ValueRef::Null\),?\s*\)\s*\.collect\(\)", padnulls, text)
 
+    def tcont(m):
+        log.add("X7:vx_tables_has")
+        return "vx_tables_has(&self.tables, %s)" % m.group(1)
+    text = re.sub(r"\bself\.tables\.contains_key\((table_name)\)", tcont, text)
+
+    def tgetu(m):
+        log.add("X7:vx_tables_get_str")
+        return "vx_tables_get_str(&self.tables, %s).unwrap()" % m.group(1)
+    text = re.sub(r"\bself\.tables\.get\((table_name)\)\.unwrap\(\)", tgetu, text)
+
     def tget(m):
         log.add("X7:vx_tables_get")
         return "vx_tables_get(%s, %s)" % (m.group(1), m.group(2))
